@@ -171,24 +171,104 @@ func verifSigWindowN(a []verifSig, i, n int) string {
 	return w
 }
 
+// verifC02Multiset handles CREATE TABLE, whose printer groups the elements of
+// the body by kind: the tokens before the body and after it are compared in
+// order, the body's elements (split at its top-level commas) as a multiset of
+// token sequences.
 func verifC02Multiset(a, b []verifSig) {
-	used := make([]bool, len(b))
-	for i, s := range a {
+	ap, ae, as := verifSplitBody(a)
+	bp, be, bs := verifSplitBody(b)
+	verifC02Seq(ap, bp)
+	verifC02Seq(as, bs)
+	used := make([]bool, len(be))
+	for _, e := range ae {
 		found := false
-		for j, t := range b {
-			if !used[j] && verifSigEq(s, t) {
+		for j, f := range be {
+			if !used[j] && verifElemEq(e, f) {
 				used[j] = true
 				found = true
 				break
 			}
 		}
 		if !found {
-			verifFail("C02/token-dropped", verifSigWindow(a, i))
+			verifFail("C02/token-dropped", "table element: "+verifSigWindowN(e, 0, 6))
 		}
 	}
-	for j, t := range b {
+	for j, f := range be {
 		if !used[j] {
-			verifFail("C02/token-added", verifSigKey(t))
+			verifFail("C02/token-added", "table element: "+verifSigWindowN(f, 0, 6))
 		}
 	}
+}
+
+func verifElemEq(e, f []verifSig) bool {
+	if len(e) != len(f) {
+		return false
+	}
+	for i := range e {
+		if !verifSigEq(e[i], f[i]) {
+			return false
+		}
+	}
+	return true
+}
+
+func verifC02Seq(a, b []verifSig) {
+	for i := 0; i < len(a) && i < len(b); i++ {
+		if !verifSigEq(a[i], b[i]) {
+			verifFail("C02/token-differs", "in="+verifSigWindowN(a, i, 4)+" out="+verifSigKey(b[i]))
+		}
+	}
+	if len(a) > len(b) {
+		verifFail("C02/token-dropped", verifSigWindow(a, len(b)))
+	}
+	if len(b) > len(a) {
+		verifFail("C02/token-added", verifSigKey(b[len(a)]))
+	}
+}
+
+// verifSplitBody splits a CREATE TABLE token list into prefix (up to and
+// including the opening parenthesis of the body), the elements of the body as
+// token sequences, and the suffix (from the closing parenthesis on).
+func verifSplitBody(a []verifSig) (prefix []verifSig, elems [][]verifSig, suffix []verifSig) {
+	open := -1
+	for i, s := range a {
+		if s.kind == "(" {
+			open = i
+			break
+		}
+	}
+	if open < 0 {
+		return a, nil, nil
+	}
+	depth := 0
+	var cur []verifSig
+	for i := open; i < len(a); i++ {
+		s := a[i]
+		switch s.kind {
+		case "(", "[", "{":
+			depth++
+			if depth == 1 {
+				continue
+			}
+		case ")", "]", "}":
+			depth--
+			if depth == 0 {
+				if len(cur) > 0 {
+					elems = append(elems, cur)
+				}
+				return a[:open+1], elems, a[i:]
+			}
+		case ",":
+			if depth == 1 {
+				if len(cur) > 0 {
+					elems = append(elems, cur)
+				}
+				cur = nil
+				continue
+			}
+		}
+		cur = append(cur, s)
+	}
+	return a[:open+1], elems, nil
 }
